@@ -483,6 +483,8 @@ def run(ctx):
     ctx.extra['trace_events_validated_by_tlc'] = len(events)
     ctx.extra['trace_events_rejected_by_tlc'] = nfail
     ctx.extra['max_snappable_denominator'] = SL.MAXDEN
+    ctx.extra['splittings_per_instance'] = [list(t) for t in splits_for(6, quick)]
+    ctx.extra['layerC_mirrors_aliased_prox_defect'] = PROX_ALIAS_ZERO == '1'
     ctx.exhaustive = True    # every instance of the declared catalogue and every splitting is replayed
 
 
